@@ -85,7 +85,18 @@ fn generate(cli: &Cli) -> Vec<Case> {
             targets: mk::targets(&mut rng, nt),
             pick: rng.below(5) as usize,
             presented_session: rng.chance(1, 3),
-            host: format!("{}.example.org", rng.ascii_name(1, 12)),
+            // the host is whatever the client wrote into its handshake: SRV targets with the root dot,
+            // mod-loader markers behind a NUL, upper case, IP literals, nothing at all
+            host: match rng.below(10) {
+                0 => format!("{}.example.org.", rng.ascii_name(1, 12)),
+                1 => format!("{}.example.org\u{0}FML3\u{0}", rng.ascii_name(1, 12)),
+                2 => format!("{}.Example.ORG", rng.ascii_name(1, 12).to_uppercase()),
+                3 => "192.0.2.7".to_string(),
+                4 => "[2001:db8::1]".to_string(),
+                5 => String::new(),
+                6 => format!(" {}.example.org ", rng.ascii_name(1, 8)),
+                _ => format!("{}.example.org", rng.ascii_name(1, 12)),
+            },
             port: *rng.pick(&[0u16, 1, 25565, 65535, 19132]),
             second,
             seeds: (rng.u64(), rng.u64()),
